@@ -201,7 +201,10 @@ static void syn_err_cb (int err, void *ea, int ign, void *ia, int rec, void *ra)
 }
 
 /* parse_alloc / parse_free ledger */
-struct blk { char *p; int size; int live; int freed_times; };
+struct blk { char *p; int size; int live; int freed_times; int epoch; };
+static int cur_epoch;		/* parse number: blocks are tagged with the parse that allocated them */
+static int chk_epoch = -1;	/* if >= 0: frees and reachable blocks must belong to this parse */
+static long led_foreign_free;
 static struct blk *blks;
 static int nblks, capblks;
 static long led_bad_free, led_double_free, led_null_free, led_allocs, led_frees;
@@ -210,7 +213,7 @@ static void *pa_cb (int n)
 {
   char *p = (char *) __real_malloc (n > 0 ? n : 1);
   if (nblks == capblks) { capblks = capblks ? capblks * 2 : 1024; blks = (struct blk *) __real_realloc (blks, sizeof (struct blk) * capblks); }
-  blks[nblks].p = p; blks[nblks].size = n; blks[nblks].live = 1; blks[nblks].freed_times = 0; nblks++;
+  blks[nblks].p = p; blks[nblks].size = n; blks[nblks].live = 1; blks[nblks].freed_times = 0; blks[nblks].epoch = cur_epoch; nblks++;
   led_allocs++;
   return p;
 }
@@ -228,6 +231,7 @@ static void pf_cb (void *p)
   i = blk_find (p);
   if (i < 0) { led_bad_free++; return; }	/* not ours: do not touch */
   if (!blks[i].live) { led_double_free++; return; }
+  if (chk_epoch >= 0 && blks[i].epoch != chk_epoch) led_foreign_free++;
   blks[i].live = 0; blks[i].freed_times++;
   led_frees++;
   /* keep the memory (poisoned) so that stale reads see garbage instead of reused data */
@@ -237,14 +241,14 @@ static int blk_contains_live (void *p, size_t len)
 {
   int i;
   for (i = 0; i < nblks; i++)
-    if (blks[i].live && (char *) p >= blks[i].p && (char *) p + len <= blks[i].p + blks[i].size) return 1;
+    if (blks[i].live && (chk_epoch < 0 || blks[i].epoch == chk_epoch) && (char *) p >= blks[i].p && (char *) p + len <= blks[i].p + blks[i].size) return 1;
   return 0;
 }
 static void ledger_reset (void)
 {
   int i;
   for (i = 0; i < nblks; i++) __real_free (blks[i].p);
-  nblks = 0; led_bad_free = led_double_free = led_null_free = led_allocs = led_frees = 0;
+  nblks = 0; led_bad_free = led_double_free = led_null_free = led_allocs = led_frees = led_foreign_free = 0;
 }
 static long ledger_live (void) { int i; long n = 0; for (i = 0; i < nblks; i++) n += blks[i].live; return n; }
 
@@ -748,6 +752,7 @@ static void clear_expect (void)
   for (i = 0; i < 256; i++) x_rcost[i / 16][i % 16] = -1;
 }
 
+#ifndef YV_NO_MAIN
 int main (int argc, char **argv)
 {
   static char line[1 << 20];
@@ -872,3 +877,4 @@ int main (int argc, char **argv)
 	  YV_LANG, n_parses, n_defs, n_mismatch, n_sent_parses, n_err_parses, n_hits, n_hit_diff, n_sets, n_recs, n_trees_cmp);
   return 0;
 }
+#endif /* YV_NO_MAIN */
